@@ -117,7 +117,8 @@ def run(res, tier, seed, driver_ok):
     real = {'self.screw_list': arm_.screw_list, 'self.screw_list_body': arm_.screw_list_body, 'self.joint_mins': arm_.joint_mins, 'self.joint_maxs': arm_.joint_maxs,
             'theta': arm_._theta, 'self._bottom_joints_local': sp_._bottom_joints_local, 'self._top_joints_local': sp_._top_joints_local,
             'self._bottom_joints_space': sp_._bottom_joints_space, 'self._top_joints_space': sp_._top_joints_space,
-            'self._bottom_joints_init': sp_._bottom_joints_init, 'self._top_joints_init': sp_._top_joints_init}
+            'self._bottom_joints_init': sp_._bottom_joints_init, 'self._top_joints_init': sp_._top_joints_init,
+            'self.TAA': arm_.getEEPos().TAA, 'self.TM': arm_.getEEPos().TM}
     bnd = {'n': arm_.num_dof}
     for k_, v_ in real.items():
         stats['shape_table_checks'] += 1
